@@ -69,7 +69,8 @@ RULE = ("case = integer variable (type, factor, description table 1..20, bit def
         "thorough: every type), reads of every field ending at the sign bit of INTEGER8..32, ~120 factors x types x boundary raws x offsets inside the rounding "
         "interval, tables of every size 1..20 x types; Hypothesis adds mixed histories, incl. "
         "edits of the description table between uses (add_value_description: new text for a described "
-        "value, or one more entry). Oracle: "
+        "value, or one more entry), and a second variable that defines fields of the same names at other bit "
+        "positions and is used first. Oracle: "
         "bit-pattern model + exact rationals: |raw - x/f| <= 1/2 + 2^-51|x/f|, |readback - x| <= "
         "|f|/2 + float slack, desc/bits exact; stored bytes decoded by the harness. Non-trivial = a "
         "phys op with factor != 1, a desc op on a table of >= 2 entries, or a bit op with lo > 0 and "
@@ -375,6 +376,25 @@ def _run_on(cname, case, D):
     U = None                    # model: bit pattern of the stored raw value
     held = None
     obs = []
+    if case.get("sibling"):
+        # another variable of the application (another object, another device profile) defines fields with the
+        # SAME names at other bit positions and is used first: names are local to a variable
+        from canopen.objectdictionary import ODVariable
+        sib = ODVariable("sibling", 0x2F00)
+        sib.data_type = rc.UNSIGNED32
+        shift = case["sibling"]
+        for name, bits in _bitdefs(case).items():
+            sbits = [(b + shift) % 32 for b in bits]
+            sib.add_bit_definition(name, sbits)
+        for name, bits in _bitdefs(case).items():
+            sbits = [(b + shift) % 32 for b in bits]
+            mask = sum(1 << b for b in sbits)
+            ok, got = _call(lambda: (sib.decode_bits(0xFFFFFFFF, name), sib.encode_bits(0, name, 1)))
+            want = (mask >> min(sbits), 1 << min(sbits))
+            if not ok or tuple(got) != want:
+                bad("bits/sibling", f"variable 'sibling' field {name!r} = bits {sbits}: decode_bits(0xFFFFFFFF), "
+                                    f"encode_bits(0, 1) give {_exc(got) if not ok else got}, want {want}")
+                return []
 
     def stored(tag):
         """Observed pattern of the stored raw value (None + discrepancy when unusable)."""
@@ -755,7 +775,8 @@ def bit_cases(thorough):
                     if hi + 1 < min(32, _usable(dt)):
                         decoys.append([lo, hi + 1])
                     yield base_case(dt, ops, init=_val(dt, u0), salt=i, hold=(i % 5 == 0), decoys=decoys,
-                                    factor=(0.1, 1, -2, 0.25)[i % 4])
+                                    factor=(0.1, 1, -2, 0.25)[i % 4],
+                                    sibling=(0, 0, 1, 7)[i % 4] if sp == "name" else 0)
 
 
 def signbit_cases():
@@ -1029,7 +1050,8 @@ def mixed_case(draw, kinds):
             "where": draw(st.sampled_from(["var", "record", "array"])), "sub": draw(st.integers(1, 254)),
             "pdo_side": draw(st.sampled_from(["tpdo", "rpdo"])), "hold": draw(st.booleans()),
             "pad": draw(st.integers(0, min(3, room))), "decoys": decoys,
-            "padbits": draw(st.sampled_from([0, 0, 1, 3, 4, 7])) if room >= 4 else 0}
+            "padbits": draw(st.sampled_from([0, 0, 1, 3, 4, 7])) if room >= 4 else 0,
+            "sibling": draw(st.sampled_from([0, 0, 0, 1, 5, 16, 31]))}
 
 
 def _showcase():
